@@ -1,14 +1,21 @@
 RAFT = {"dir": "consensus/raft", "pkgname": "raft"}
 PSTORE = {"dir": "pstoremgr", "pkgname": "pstoremgr"}
+DSSTATE = {"dir": "state/dsstate", "pkgname": "dsstate"}
 
 SPEC = {
     "go": [dict(RAFT, files=["raft/c14_rig_test.go", "raft/c14_raft_test.go", "raft/c14_snap_test.go"], test="TestVerifC14Raft",
                 n_quick=150, n_thorough=3000, shards_quick=4, shards_thorough=12),
            dict(PSTORE, files=["pstoremgr/c14_pstore_test.go"], test="TestVerifC14Pstore",
-                n_quick=400, n_thorough=6000, shards_quick=2, shards_thorough=8)],
+                n_quick=400, n_thorough=6000, shards_quick=2, shards_thorough=8),
+           dict(DSSTATE, files=["dsstate/c14_pins.go", "dsstate/c14_dsstate_test.go"], test="TestVerifC14Dsstate",
+                n_quick=200, n_thorough=4000, shards_quick=1, shards_thorough=4)],
     "rule": "TODO",
     "codes": {1: "model_eq_impl (C14)", 10: "backup_rotation step (C14)", 11: "backup_rotation history (C14)",
               12: "peerstore_skips_garbage (C14): LoadPeerstore returned a nil address or the import crashed",
+              14: "marshal_unmarshal_id (C14): Marshal then Unmarshal onto an empty store does not reproduce the pinset",
+              15: "snapshot_offline_id (C14): a saved snapshot does not read back (offline / raw / started peer) as the saved pinset",
+              16: "export_complete (C14): the exported stream is not exactly the pinset",
+              17: "export_import_id (C14): export then import does not reproduce the pinset",
               13: "peerstore_roundtrip (C14): the saved file does not read back as the same addresses in the same priority order"},
     "tags": {},
     "trusted": [],
